@@ -272,3 +272,31 @@ Theorem C01_shard_verdict : forall cases k,
   failing k (map check_C01 cases) = [] -> forall c, In c cases -> check_C01 c = true.
 Proof. exact (CheckSound.failing_nil_all check_C01). Qed.
 Print Assumptions C01_shard_verdict.
+
+(* the by-cell case on the observation: the OBSERVED counts of Mesh(region, cell=c) are the rounded edge/cell
+   ratios and every edge is a whole number of observed cells up to the documented tolerance; an observed
+   refusal is the model's refusal *)
+Theorem C01_check_by_cell_sound : forall ex p1 p2 c tf_ k,
+  check_C01 (CByCell ex p1 p2 c tf_ (Some k)) = true ->
+  exists r m, mk_region p1 p2 None None tf_ = OK r /\ mesh_by_cell r c = OK m /\ n m = k.
+Proof. exact check_bycell_sound. Qed.
+Print Assumptions C01_check_by_cell_sound.
+Theorem C01_check_by_cell_reject_sound : forall ex p1 p2 c tf_,
+  check_C01 (CByCell ex p1 p2 c tf_ None) = true ->
+  exists r e, mk_region p1 p2 None None tf_ = OK r /\ mesh_by_cell r c = Err e.
+Proof. exact check_bycell_reject_sound. Qed.
+Print Assumptions C01_check_by_cell_reject_sound.
+Theorem C01_accepted_by_cell_counts : forall ex p1 p2 c tf_ k,
+  check_C01 (CByCell ex p1 p2 c tf_ (Some k)) = true -> 0 <= tf_ -> (length p1 <= 10)%nat ->
+  exists r, mk_region p1 p2 None None tf_ = OK r /\ wf_region r /\
+    length c = ndim r /\ length k = ndim r /\
+    forall a, (a < ndim r)%nat ->
+      0 < nth a c 0 /\
+      nth a k 0%Z = Qround_half_even ((nth a (pmax r) 0 - nth a (pmin r) 0) / nth a c 0) /\
+      Qabs ((nth a (pmax r) 0 - nth a (pmin r) 0) - inject_Z (nth a k 0%Z) * nth a c 0) <= bycell_tol c.
+Proof. exact accepted_by_cell_counts. Qed.
+Print Assumptions C01_accepted_by_cell_counts.
+Example C01_accepted_by_cell_instance :
+  check_C01 (CByCell true [0; 0] [4; 3] [1 # 2; 1] (1 # 1000000000000) (Some [8; 3]%Z)) = true.
+Proof. exact accepted_by_cell_instance. Qed.
+Print Assumptions C01_accepted_by_cell_instance.
